@@ -35,6 +35,8 @@ type verifKMS struct {
 	maxCalls      int
 	shortPage     bool // the service may legally return fewer entries than requested on a non-final page
 	polls         int
+	createdName   string
+	createdState  kmspb.CryptoKeyVersion_CryptoKeyVersionState
 	lastPollName  string
 	lastPollState kmspb.CryptoKeyVersion_CryptoKeyVersionState
 	keys          []*kmspb.CryptoKey
@@ -102,7 +104,10 @@ func (k *verifKMS) CreateCryptoKeyVersion(ctx context.Context, in *kmspb.CreateC
 	if verifNondetBool("create_error") {
 		return nil, verifErrSvc
 	}
-	return &kmspb.CryptoKeyVersion{Name: in.Parent + "/cryptoKeyVersions/new", State: kmspb.CryptoKeyVersion_PENDING_GENERATION}, nil
+	// the service may report the new version in any state (normally still generating)
+	st := kmspb.CryptoKeyVersion_CryptoKeyVersionState(verifNondetU8("create_state") % 6)
+	k.createdName, k.createdState = in.Parent+"/cryptoKeyVersions/new", st
+	return &kmspb.CryptoKeyVersion{Name: k.createdName, State: st}, nil
 }
 
 func verifCRC(b []byte) int64 { return int64(crc32.Checksum(b, crc32cTable)) }
@@ -291,7 +296,8 @@ func VerifC20WaitKeyGen() {
 			}
 		}
 		polledEnabled := svc.polls > 0 && svc.lastPollName == name && svc.lastPollState == kmspb.CryptoKeyVersion_ENABLED
-		verifAssert(listedEnabled || polledEnabled, "bootstrap returns a key version only once it is enabled")
+		createdEnabled := svc.createdName == name && svc.createdState == kmspb.CryptoKeyVersion_ENABLED
+		verifAssert(listedEnabled || polledEnabled || createdEnabled, "bootstrap returns a key version only once it is enabled")
 	}
 	verifReach("end")
 }
@@ -304,7 +310,9 @@ func VerifC20Rotate() {
 	name, err := m.CreateNewSigningKeyVersion(ctx)
 	if err == nil {
 		verifReach("enabled")
-		verifAssert(name != "", "rotation returns a version name only once it is enabled")
+		polledEnabled := svc.polls > 0 && svc.lastPollName == name && svc.lastPollState == kmspb.CryptoKeyVersion_ENABLED
+		createdEnabled := svc.createdName == name && svc.createdState == kmspb.CryptoKeyVersion_ENABLED
+		verifAssert(name != "" && (polledEnabled || createdEnabled), "rotation returns a version name only once it is enabled")
 	}
 	verifReach("end")
 }
